@@ -123,11 +123,30 @@ class _FakeFile:
 
 
 class _FakeDS:
-    def __init__(self, uid, cls, rec, write_ok):
+    """The decoded data set of the C-STORE request.  Besides the two UIDs, every other element a handler may look at
+    (`ds.get("Modality")`, `ds.PatientID`, `"Modality" in ds` ...) is peer-controlled too: it holds the string `other`."""
+
+    def __init__(self, uid, cls, rec, write_ok, other="OT"):
         self.SOPInstanceUID = uid
         self.SOPClassUID = cls
         self._rec, self._ok = rec, write_ok
+        self._other = other
         self.file_meta = None
+
+    def get(self, key, default=None):
+        if key == "SOPInstanceUID":
+            return self.SOPInstanceUID
+        if key == "SOPClassUID":
+            return self.SOPClassUID
+        return self._other
+
+    def __contains__(self, key):
+        return True
+
+    def __getattr__(self, name):
+        if name[:1].isupper():       # a DICOM keyword
+            return self._other
+        raise AttributeError(name)
 
     def __getitem__(self, k):   # ds[0x00030000:]
         return self
@@ -243,9 +262,9 @@ def _all_harmless(rec, storage_dir):
 
 
 # ------------------------------------------------------------------------------------------------ storescp
-def _run_storescp(uid, sop_class, out_dir, deflated, exists, write_ok, forking):
+def _run_storescp(uid, sop_class, out_dir, deflated, exists, write_ok, forking, other="OT"):
     rec = _Rec()
-    ds = _FakeDS(uid, sop_class, rec, write_ok)
+    ds = _FakeDS(uid, sop_class, rec, write_ok, other)
     ts = common.DeflatedExplicitVRLittleEndian if deflated else "1.2.840.10008.1.2"
 
     def fake_open(path, mode="r", *a, **k):
@@ -356,21 +375,23 @@ def storescp_variants(uid: str, cls_idx: int, deflated: bool, exists: bool, writ
     "C30",
     timeout=(150, 900),
     functions=["apps.common:handle_store"],
-    bounds="SOP Class UID any str of length <= %d (any code points) looked up in the live SOP_CLASS_PREFIXES; SOP "
-           "Instance UID '1.2.3'; output directory /store or None" % N,
+    bounds="SOP Class UID any str of length <= %d (any code points) looked up in the live SOP_CLASS_PREFIXES; every other "
+           "element of the data set (Modality, PatientID, ...) holds any str of length <= 3; SOP Instance UID '1.2.3'; output "
+           "directory /store or None" % N,
     stubs=_STORESCP_STUBS + ["SOP_CLASS_PREFIXES wrapped in ForkingDict (lookup by symbolic key forks per entry)"],
     outside="SOP Class UIDs longer than the bound other than the two pool members of storescp_paths (no live key is "
             "shorter than 20 characters, so the symbolic class always takes the 'UN' branch)",
     shards=[{"dir": "abs"}, {"dir": "none"}],
 )
-def storescp_class(cls: str, deflated: bool) -> bool:
+def storescp_class(cls: str, deflated: bool, other: str) -> bool:
     """
     pre: len(cls) <= N
+    pre: len(other) <= 3
     post: _ == True
     """
     key = shard("dir", "abs")
     out_dir = None if key == "none" else DIRS[key]
-    return _run_storescp("1.2.3", cls, out_dir, deflated, False, True, True)
+    return _run_storescp("1.2.3", cls, out_dir, deflated, False, True, True, other)
 
 
 # ------------------------------------------------------------------------------------------------ qrscp
